@@ -98,6 +98,25 @@ def instances(tier, rng):
                 if cls == "kFlowDecompCycles":
                     r["k"] = max(1, len(u["proutes"])) + rng.choice([0, 1])
                 insts.append(r)
+    # the same in NODE mode, DAG and cyclic: nodes whose value is exactly 0 (they are not "nodes without a value": nothing may
+    # pass through them) next to ignored nodes of positive value (which leave their neighbours unbalanced)
+    dagz = [z for z in (C.zeroed(u) for u in vlib.universe("dag", 4, k=3, w=3, cap=12)) if z and 0 in z["nw"]]
+    cycz = [z for z in cyc4z if 0 in z["nw"]]
+    for u in (C.spread(dagz, 30) + C.spread(cycz, 30) if quick else C.spread(dagz, 300) + C.spread(cycz, 300)):
+        cycl = u in cycz
+        pos = [v for v, w in zip(u["nodes"], u["nw"]) if w > 0]
+        if len(pos) < 2:
+            continue
+        for ign in ([rng.choice(pos)], rng.sample(pos, 2)):
+            for cls in (("kFlowDecompCycles", "MinFlowDecompCycles") if cycl else ("kFlowDecomp", "MinFlowDecomp")):
+                r = C.base(u, cls, "node")
+                r["wt"] = "int"
+                r["ign"] = ign
+                if cls.startswith("k"):
+                    r["k"] = max(1, len(u["proutes"])) + rng.choice([0, 1])
+                    if cls == "kFlowDecomp":
+                        r["opt"] = {"optimize_with_greedy": False}
+                insts.append(r)
     for u in cyc_s:
         kp = len(u["proutes"])
         for cls in ("kFlowDecompCycles", "MinFlowDecompCycles"):
